@@ -166,6 +166,9 @@ func replayTrCase(env *trEnv, c *trCase) (diff string) {
 	t := ech.NewTransport()
 	t.Resolver = res
 	t.TLSConfig = &tls.Config{RootCAs: env.pki.pool}
+	if !reverseWire { // the application brings its own Dialer object ("Its parameters can be modified as needed")
+		t.Dialer = ech.NewDialer()
+	}
 	t.Dialer.MaxConcurrency = 1
 	if reverseWire { // "When Dialer is used by Transport, this value is ignored"
 		t.Dialer.Resolver = res
